@@ -41,9 +41,9 @@ def obligations(tier):
            bounds="two registered extensions each clean/custom and each given as dict or ready-made instance, unregistered extension, extension-definition; both orders; symbolic allow_custom"),
         CH("hash_names", H, "prop_hashes", t, mode="E1s", functions=F[4:5], bounds="12 algorithm names (spec, library-known non-spec, unknown, case variants), singles and pairs"),
         CH("flag_iff_strict_reparse_refuses", H, "flag_iff_strict_refuses", t * 2, mode="E1s", functions=F,
-           bounds="none, each single and each ordered pair (same base object) of 43 injection sites on 9 base objects (2.0 objects and embedded types with an extensions member, custom content inside marking definitions)"),
+           bounds="none, each single and each ordered pair (same base object) of 45 injection sites on 10 base objects (2.0 objects and embedded types with an extensions member, custom content inside marking definitions)"),
         CH("reserved_member_names_switch_nothing", H, "reserved_names", t, mode="E1s", functions=F[:1] + F[2:4],
-           bounds="members named allow_custom / interoperability / custom_properties at 12 sites (top level, embedded objects, extensions, marking definitions, bundle and observed-data members), alone or next to a custom property: strict parse refuses"),
+           bounds="members named allow_custom / interoperability / custom_properties at 14 sites (top level, embedded objects, extensions, marking definitions, bundle and observed-data members), alone or next to a custom property: strict parse refuses"),
         CH("dropped_custom_values_do_not_flag", H, "dropped_custom_values", t, mode="E1s", functions=F[:1],
            bounds="custom property given as null / [] at 9 sites (top level, embedded, extension, bundle and observed-data members), alone or next to each injection"),
         CH("registered_toplevel_extensions_not_custom", H, "toplevel_extension_routes", t, mode="E1s", functions=F[:1] + ["stix2.versioning.new_version", "stix2.base._STIXBase.__deepcopy__"],
